@@ -171,6 +171,22 @@ impl Watch {
             let v = self.acct.on(rec, &pres, codec, &hcfg, acc);
             self.gate(true, v)?;
         }
+        // A call that fails with an Encode error (packets too small for a header: only the C07/C06/C17 workloads use
+        // them) stops half-way: e.g. an identity renewal whose gossip cannot be encoded returns before Rejoin is
+        // notified. The notification-driven shadows would then drift for the rest of the history (the C07 header
+        // rules use them), so - unless C08 itself is being judged - they are re-based on the hook snapshot.
+        if matches!(rec.res, Res::Err(EK::Encode)) && !self.arm.c08 {
+            let want = match rec.post.snap.connection_state {
+                0 => basic::Conn::Idle,
+                1 => basic::Conn::Active,
+                _ => basic::Conn::Defunct,
+            };
+            if self.c08.conn != want || self.c08.up.len() != rec.post.active.len() {
+                acc.tally("shadows_rebased_after_encode_error", 1);
+            }
+            self.c08.conn = want;
+            self.c08.up = rec.post.active.iter().copied().collect();
+        }
         Ok(())
     }
 }
